@@ -19,6 +19,16 @@ def run(c):
         out = c.harness("pool", args, timeout=900)
         if out:
             c.monitor("pool-orphans", out)
+    # start-up / restart failures and trees with exit-trapping children and nested supervisors
+    is_sf_replay = False
+    if c.replay:
+        import json
+        is_sf_replay = json.load(open(c.replay)).get("engine", "") == "sup-startfail"
+    if not c.replay or is_sf_replay:
+        args = ["startfail", "-replay", c.replay] if is_sf_replay else ["startfail", "-n", "90" if c.tier == "quick" else "900"]
+        out = c.harness("sup", args, timeout=1200)
+        if out:
+            c.monitor("sup-startfail", out)
     c.assumptions += sm.ASSUMPTIONS + [
         "terminations that bypass the machine (Node.Kill of the supervisor, failed Spawn during a restart) rely on the "
         "LinkParent exit propagation of node/ - checked end to end on the real node only, not a theorem of this engine",
